@@ -134,7 +134,7 @@ def handlesMachine : Machine Handles.St where
     | "drops" => some (toString s.dropLog.length)
     | _ => none
   describe s t := reprStr (s.thr t) ++ s!" free={s.free} cbs={reprStr s.cbs}"
-  cmpVal tag := tag == "oa.inc"
+  cmpVal tag := tag == "oa.inc"   -- (the slot id reported at `pa.dealloc.*` is checked through the results instead)
 
 /-! ### M12a IncAvg — `avgUpd` instantiated with the IEEE single-precision formula of `inc` -/
 def avgUpdF32 (c a x : Nat) : Nat :=
